@@ -109,6 +109,75 @@ theorem ok_implies_wellformed (g : Graph) (req order : List Nat) (h : run g req 
   · intro v hv
     exact ht.isTarget (by simpa using (hm v).mpr hv)
 
+/-! ### histories: every build on the same project object
+
+`Model.Tasks.history g ops` are the observations of a sequence of
+`add_target` / `add_dependency` / `run` / `check_target` calls on one project.
+The model keeps nothing between calls but the graph, so the i-th observation is
+the stateless `run` on the project as edited so far — earlier builds cannot
+influence it — and therefore satisfies the per-run theorems above.  (That the
+real objects keep no further state either is what the history correspondence
+in harness/c34.py checks.) -/
+
+/-- the i-th observation of a history is the i-th call made on the project as it is then -/
+theorem history_nth (g : Graph) (ops : List Op) (i : Nat) (op : Op) (h : ops[i]? = some op) :
+    (history g ops)[i]? = some (step (projectAfter g (ops.take i)) op).2 := by
+  induction ops generalizing g i with
+  | nil => simp at h
+  | cons o ops ih =>
+    cases i with
+    | zero => simp at h; subst h; simp [history, projectAfter]
+    | succ i =>
+      simp only [List.getElem?_cons_succ] at h
+      simpa [history, projectAfter] using ih (step g o).1 i h
+
+/-- builds and checks leave the project as it is: only the edits of a history matter for its state -/
+theorem project_ignores_runs (g : Graph) (ops : List Op) :
+    projectAfter g ops = projectAfter g (ops.filter Op.isEdit) := by
+  induction ops generalizing g with
+  | nil => rfl
+  | cons o ops ih =>
+    cases o <;> simp [projectAfter, step, Op.isEdit, List.filter_cons] <;> first | exact ih _ | (split <;> exact ih _)
+
+/-- **Statelessness.** In any history the result of a build is `run` of the
+    request on the project obtained from the EDITS made before it; the builds
+    and checks made before it (however many, with whatever requests) are irrelevant. -/
+theorem history_run_stateless (g : Graph) (ops : List Op) (i : Nat) (req : List Nat)
+    (h : ops[i]? = some (.run req)) :
+    (history g ops)[i]? = some (.ran (run (projectAfter g ((ops.take i).filter Op.isEdit)) req)) := by
+  rw [history_nth g ops i _ h, project_ignores_runs]; rfl
+
+theorem history_check_stateless (g : Graph) (ops : List Op) (i : Nat) (t : Nat)
+    (h : ops[i]? = some (.checkTarget t)) :
+    (history g ops)[i]? = some (.checked (checkTarget (projectAfter g ((ops.take i).filter Op.isEdit)) t)) := by
+  rw [history_nth g ops i _ h, project_ignores_runs]; rfl
+
+/-- Hence every successful build of every history executes exactly the needed
+    targets of the project as it is at that moment, once each, after their dependencies … -/
+theorem history_build_correct (g : Graph) (ops : List Op) (i : Nat) (req order : List Nat)
+    (h : ops[i]? = some (.run req)) (ho : (history g ops)[i]? = some (.ran (.ok order))) :
+    ExactlyOnce (projectAfter g (ops.take i)) req order ∧ AfterDeps (projectAfter g (ops.take i)) order := by
+  rw [history_nth g ops i _ h] at ho
+  have hr : run (projectAfter g (ops.take i)) req = .ok order := by
+    simp only [step, Option.some.injEq, Out.ran.injEq] at ho; exact ho
+  exact ⟨executed_exactly_once _ _ _ hr, executed_after_dependencies _ _ _ hr⟩
+
+/-- … and every build of every history reports a loop iff a cycle is reachable
+    from its request in the project as it is at that moment. -/
+theorem history_loop_exact (g : Graph) (ops : List Op) (i : Nat) (req : List Nat)
+    (h : ops[i]? = some (.run req)) (hex : AllExist (projectAfter g (ops.take i)) req) :
+    (history g ops)[i]? = some (.ran (.error .loop)) ↔ CycleReachable (projectAfter g (ops.take i)) req := by
+  rw [history_nth g ops i _ h, ← loop_reported_iff_cycle_reachable _ _ hex]
+  simp [step]
+
+/-- non-vacuity: request [1,0] then [0] on 0 → 1, then add 2 and 0 → 2, build again -/
+example : (history [(0, [1]), (1, [])] [.run [1, 0], .run [0], .addTarget 2 [], .addDependency 0 2, .run [0]])[1]?
+    = some (.ran (.ok [1, 0])) := by
+  simp [history, step, run, targetSequence, visit, List.lookup, Except.map]
+example : (history [(0, [1]), (1, [])] [.run [1, 0], .run [0], .addTarget 2 [], .addDependency 0 2, .run [0]])[4]?
+    = some (.ran (.ok [1, 2, 0])) := by
+  simp [history, step, run, targetSequence, visit, List.lookup, Except.map, addDep, insertSorted]
+
 /-! ### non-vacuity / concrete instances -/
 
 /-- the diamond  0 → {1,2} → 3 -/
